@@ -56,6 +56,10 @@ type kind struct {
 	sameEncoding func(in, e1 []byte) bool
 	// reencRefused recognises an encoding that stands for "the encoder's documented limits refuse this value".
 	reencRefused func(v any, e1 []byte) bool
+	// reuse (optional): a receiver that is decoded into more than once. fresh makes one, into decodes the binary form
+	// into it, jsonInto the JSON form (nil: none). Decoders fill their receiver, so an object that held another value
+	// before has to report the identity of what it decoded last.
+	reuse *reuseOps
 	// guard inspects an input before it is decoded and returns the iteration count the decoder's loop is going to
 	// run when that count comes from the input alone (see hangGuard in check.go); nil for all other decoders.
 	guard func(b []byte) uint64
@@ -143,6 +147,36 @@ func serDec[T any, PT interface {
 		}
 		return PT(&v), len(b) - r.Len(), nil
 	}
+}
+
+type reuseOps struct {
+	fresh    func() any
+	into     func(obj any, b []byte) error
+	jsonInto func(obj any, b []byte) error
+}
+
+func reuseOf[T any, PT interface {
+	*T
+	io.Decodable
+}](prep func(*T), withJSON bool) *reuseOps {
+	r := &reuseOps{
+		fresh: func() any {
+			v := new(T)
+			if prep != nil {
+				prep(v)
+			}
+			return v
+		},
+		into: func(obj any, b []byte) error {
+			rd := io.NewBinReaderFromBuf(b)
+			PT(obj.(*T)).DecodeBinary(rd)
+			return rd.Err
+		},
+	}
+	if withJSON {
+		r.jsonInto = func(obj any, b []byte) error { return json.Unmarshal(b, obj) }
+	}
+	return r
 }
 
 func hx(u util.Uint256) string { return hex.EncodeToString(u[:]) }
@@ -563,6 +597,7 @@ func init() {
 			ident:   func(v any) string { return "hash=" + hx(v.(*block.Header).Hash()) },
 			size:    func(v any) (int, bool) { return io.GetVarSize(v), true },
 			jsonEnc: je, jsonDec: jd, extra: headerExtra,
+			reuse: reuseOf[block.Header](prepH, true),
 		})
 		prepB := func(b *block.Block) { b.StateRootEnabled = sr }
 		je, jd = jsonOf[block.Block](prepB)
@@ -572,6 +607,7 @@ func init() {
 			ident: blockIdent,
 			size:  func(v any) (int, bool) { return v.(*block.Block).GetExpectedBlockSize(), true },
 			extra: blockExtra(sr), jsonEnc: je, jsonDec: jd,
+			reuse: reuseOf[block.Block](prepB, true),
 			alt: []altPath{
 				{"DecodeBinary", func(b []byte) (string, error) {
 					bl := block.New(sr)
@@ -703,10 +739,10 @@ func init() {
 		return &payload.Ping{LastBlockIndex: t.u32(), Timestamp: t.u32(), Nonce: t.u32()}
 	}, enc: serEnc, dec: serDec[payload.Ping](nil)})
 	addKind(&kind{name: "merkleblock", weight: 3, build: func(t *tape) any { return buildMerkleBlock(t) }, enc: serEnc, dec: serDec[payload.MerkleBlock](nil),
-		ident: func(v any) string { return "hash=" + hx(v.(*payload.MerkleBlock).Hash()) }})
+		ident: func(v any) string { return "hash=" + hx(v.(*payload.MerkleBlock).Hash()) }, reuse: reuseOf[payload.MerkleBlock](nil, false)})
 	addKind(&kind{name: "extensible", weight: 3, build: func(t *tape) any { return buildExtensible(t) }, enc: serEnc, dec: serDec[payload.Extensible](nil),
 		ident: func(v any) string { return "hash=" + hx(v.(*payload.Extensible).Hash()) },
-		size:  func(v any) (int, bool) { return io.GetVarSize(v), true }, extra: extensibleExtra})
+		size:  func(v any) (int, bool) { return io.GetVarSize(v), true }, extra: extensibleExtra, reuse: reuseOf[payload.Extensible](nil, false)})
 	je, jd = jsonOf[payload.P2PNotaryRequest](nil)
 	addKind(&kind{name: "notaryreq", weight: 3, whole: true, build: func(t *tape) any { return buildNotaryRequest(t) }, enc: serEnc,
 		dec: func(b []byte) (any, int, error) {
@@ -716,7 +752,7 @@ func init() {
 			}
 			return r, len(b), nil
 		},
-		ident: notaryIdent,
+		ident: notaryIdent, reuse: reuseOf[payload.P2PNotaryRequest](nil, false),
 	})
 
 	// --- state service / trie
@@ -724,7 +760,7 @@ func init() {
 	addKind(&kind{name: "mptroot", build: func(t *tape) any { return buildMPTRoot(t) }, enc: serEnc, dec: serDec[state.MPTRoot](nil),
 		ident:   func(v any) string { return "hash=" + hx(v.(*state.MPTRoot).Hash()) },
 		size:    func(v any) (int, bool) { return io.GetVarSize(v), true },
-		jsonEnc: je, jsonDec: jd, extra: mptRootExtra})
+		jsonEnc: je, jsonDec: jd, extra: mptRootExtra, reuse: reuseOf[state.MPTRoot](nil, true)})
 	addKind(&kind{name: "mptnode", weight: 5,
 		build: func(t *tape) any { return buildNode(t, 2, t.bool()) },
 		enc: func(v any, w gio.Writer) error {
